@@ -55,6 +55,12 @@ CLAIMED = {
         text="Indices are drawn from a boundary set around n, 2^31, 2^32 (incl. 2^32+k that a 32-bit cast would wrap into range) and +-2^63, reach the access only at run time (function result, loop, global, arithmetic), and the access sits at statement level, inside an operand, in a callee or on the k-th loop iteration; reads and writes of int/bool/string/float arrays; in-range controls keep the oracle from passing vacuously. Field cases (tuple index past arity, undeclared field, field of another union variant) must be refused at compile time or stop at run time.",
         note="array_pop on an empty array and the wrong-variant field are recorded findings (ledger). Out-of-range behaviour of array_slice/array_remove_at is not in the statement and not asserted.",
         design="3/C08"),
+    "C09": dict(
+        category="exploration",
+        technique="coverage-guided fuzzing (libFuzzer in-process front-end target under ASan/UBSan, dictionary, empty and repository corpus) + Hypothesis token-level mutation of valid programs + nesting ramps, all judged by one subprocess oracle on the ASan build of nano_virt",
+        text="Oracle: nano_virt --emit-nvm (ASan+UBSan build) exits 0 or 1, exit 1 carries a diagnostic, no signal, no sanitizer report, bounded time (suspected hangs re-run 3x with 10x budget), nesting beyond the documented limit of 1000 is rejected for every construct that nests by recursion. Inputs: fuzzer-generated byte strings (crash/timeout artifacts re-validated through the oracle), 1-4 token-level edits of generated valid programs (delete/duplicate/swap/replace/truncate/splice/unbalance/keyword injection/raw bytes), and ramps of 15 recursive constructs to depth 30 000 (100 000 in thorough). A stack overflow seen only under instrumentation is re-checked on the build as shipped.",
+        note="Leaks are outside the property. libFuzzer campaigns are only approximately reproducible from VERIF_SEED; saved artifacts are the reproducible unit. Import processing is exercised with unresolvable paths only (no module files are generated).",
+        design="3/C09"),
 }
 
 NOT_YET = {
